@@ -163,8 +163,17 @@ def check_pairs(cfg, crate, rep, tables):
             from interp import Sel
             tuples = []
             from interp import restrict, split_guards
+            def _is_alg(v_):
+                v_ = core(v_)
+                if isinstance(v_, PhiV):
+                    return all(_is_alg(y) for _, y in v_.alts)
+                return isinstance(v_, Def) and "::PKCS_" in v_.path
+
             def collect(x):
                 x = core(x)
+                if isinstance(x, StructV) and x.adt and x.adt != KP and not x.variant and len(x.fields) == 2 and sum(1 for f_ in x.fields.values() if _is_alg(f_)) == 1:
+                    # a private two-field record (detected key, its algorithm) is the pair under another name
+                    x = TupleV(sorted(x.fields.values(), key=_is_alg))
                 if isinstance(x, PhiV):
                     for c, y in x.alts:
                         collect(y)
@@ -234,7 +243,21 @@ def check_pairs(cfg, crate, rep, tables):
             doc = sv.fields.get("serialized_der")
             rep.ob("C11.doc", key + "|stores-input", places(doc) == {"key"} and not [r for r in roots(doc) if r.startswith("op:")], "the loaded key keeps its input document", found=core(doc).r()[:120])
             av = core(sv.fields.get("alg"))
-            rep.ob("C11.doc", key + "|alg-from-same-arm", same_arm if same_arm is not None else (places(sv.fields.get("kind")) and core(sv.fields.get("alg")).r().split(".")[-1] == "1" and core(sv.fields.get("kind")).r().split(".")[-1] == "0"), "kind and alg are the two halves of the same detected pair", found=(core(sv.fields.get("kind")).r()[-40:], av.r()[-40:]))
+            def _halves_of_one_pair(kv_, av_):
+                # both are selections from the same case split of pairs (tuples or two-field records), the algorithm's
+                # selector picking the algorithm half of every pair and the kind's selector the other half
+                if not (isinstance(kv_, Sel) and isinstance(av_, Sel) and core(kv_.base).r() == core(av_.base).r() and kv_.sel != av_.sel):
+                    return False
+                def pick(x, sel):
+                    x = core(x)
+                    if isinstance(x, TupleV) and sel[1:].isdigit() and int(sel[1:]) < len(x.items):
+                        return x.items[int(sel[1:])]
+                    if isinstance(x, StructV):
+                        return x.fields.get(sel[1:])
+                    return None
+                leaves = [y for _, y in flatten_phi(kv_.base)]
+                return bool(leaves) and all(pick(y, av_.sel) is not None and _is_alg(pick(y, av_.sel)) and pick(y, kv_.sel) is not None and not _is_alg(pick(y, kv_.sel)) for y in leaves)
+            rep.ob("C11.doc", key + "|alg-from-same-arm", same_arm if same_arm is not None else (bool(places(sv.fields.get("kind"))) and _halves_of_one_pair(core(sv.fields.get("kind")), core(sv.fields.get("alg")))), "kind and alg are the two halves of the same detected pair", found=(core(sv.fields.get("kind")).r()[-40:], av.r()[-40:]))
     # the other TryFrom impls delegate
     casc = [k for k in crate.bodies if k.startswith("<key_pair::KeyPair as std::convert::TryFrom<&rustls_pki_types::PrivateKeyDer")]
     for k in crate.bodies:
